@@ -136,6 +136,13 @@ class Rig:
             def on_done(self, future, **kw):
                 rig.log('subs', self.idx)
                 rig.yield_point('subscriber-on_done')      # user callbacks take time
+                if rig.spec_of.get(self.idx, {}).get('chain'):
+                    # user code that starts the next transfer from the completion callback of this one
+                    saved = getattr(_CTX, 'cur', None)
+                    try:
+                        rig.submit('delete', None, {'kind': 'delete', 'fail': None, 'err': False, 'rename_fails': False, 'chained_from': self.idx})
+                    finally:
+                        _CTX.cur = saved
         self.Sub = Sub
         if sched_shims is not None:
             shims = sched_shims
@@ -374,12 +381,20 @@ def _gen_scenario(rng, tier):
             fail = rng.choice(['make_request', 'serializer'] + (['nofile'] if kind == 'upload' else []))
         transfers.append({'kind': kind, 'fail': fail, 'err': rng.random() < 0.3,
                           'rename_fails': kind == 'dlpath' and rng.random() < 0.25})
+    chain = False
+    if (big or cap >= 2) and rng.random() < (0.8 if big else 0.25):
+        # a subscriber that submits the next transfer from on_done.  It needs a permit while its own transfer
+        # still holds one: one such subscriber, two client threads (the other one keeps completing requests)
+        ok = [t for t in transfers if not t['fail']]
+        if ok:
+            rng.choice(ok)['chain'] = True
+            chain = True
     end = rng.choice(['exit', 'exit', 'shutdown-cancel', 'exception-in-block', 'ctrl-c'])
     submitters = rng.choice([1, 1, 2])
     if submitters == 2 and end == 'exception-in-block':
         end = 'exit'        # leaving the block while another thread still submits is the application's error
     return {'cap': cap, 'future_first': rng.random() < 0.7, 'transfers': transfers, 'end': end,
-            'crt_threads': rng.choice([1, 2]), 'raise_after': rng.randrange(1, n + 1),
+            'crt_threads': 2 if chain else rng.choice([1, 2]), 'raise_after': rng.randrange(1, n + 1),
             'ki_at': rng.randrange(0, 3), 'sched_seed': rng.randrange(1 << 30), 'submitters': submitters,
             'mode': rng.choice(['uniform', 'sticky', 'pct', 'stall'])}
 
